@@ -564,7 +564,7 @@ def shiftprune(states, wavenums, shift, *, grid=1e-5, tol=1e-8):
     q2T = -q1T[..., ::-1, :]
 
     q2, idx = unique_1d(xp.concatenate([qL, q1T, q2T], axis=-2), axis=-2)
-    idxL, idx1T = idx[:n1], idx[n1 : 2 * n1]
+    idxL, idx1T, idx2T = idx[:n1], idx[n1 : 2 * n1], idx[2 * n1 :]
 
     # init new state matrix
     n2 = q2.shape[-2]
@@ -575,8 +575,12 @@ def shiftprune(states, wavenums, shift, *, grid=1e-5, tol=1e-8):
     add_at(sm2, (..., idx1T, 0), sm[..., 0])
     sm2[..., 1] = sm2[..., ::-1, 0].conj()
 
-    # wavenumbers
+    # wavenumbers: the grid only decides which states coincide, the stored values are the true ones
+    # (storing the grid-snapped values would let the rounding accumulate from shift to shift)
     k2 = (q2 * grid).astype(float)
+    k2[..., idx2T, :] = k2T
+    k2[..., idx1T, :] = k1T
+    k2[..., idxL, :] = kL
 
     # keep only non-zero phase states
     axes = tuple(range(sm.ndim - 2)) + (-1,)
